@@ -39,33 +39,36 @@ impl Real {
 pub struct Graph {
     pub n: usize,
     /// adjacency: adj[i] = bitmask of successors of i ("i refers to j")
-    pub adj: Vec<u32>,
+    pub adj: Vec<Vec<u64>>,
 }
 
 impl Graph {
     pub fn from_mask(n: usize, mask: u64) -> Graph {
-        let mut adj = vec![0u32; n];
+        let mut adj = vec![vec![0u64; n / 64 + 1]; n];
         for i in 0..n {
             for j in 0..n {
                 if mask >> (i * n + j) & 1 == 1 {
-                    adj[i] |= 1 << j;
+                    adj[i][j / 64] |= 1u64 << (j % 64);
                 }
             }
         }
         Graph { n, adj }
     }
     pub fn from_edges(n: usize, edges: &[(usize, usize)]) -> Graph {
-        let mut adj = vec![0u32; n];
+        let mut adj = vec![vec![0u64; n / 64 + 1]; n];
         for (a, b) in edges {
-            adj[*a] |= 1 << *b;
+            adj[*a][*b / 64] |= 1u64 << (*b % 64);
         }
         Graph { n, adj }
+    }
+    pub fn has(&self, i: usize, j: usize) -> bool {
+        self.adj[i][j / 64] >> (j % 64) & 1 == 1
     }
     pub fn edges(&self) -> Vec<(usize, usize)> {
         let mut e = vec![];
         for i in 0..self.n {
             for j in 0..self.n {
-                if self.adj[i] >> j & 1 == 1 {
+                if self.has(i, j) {
                     e.push((i, j));
                 }
             }
@@ -73,7 +76,7 @@ impl Graph {
         e
     }
     fn out_degree(&self, i: usize) -> u32 {
-        self.adj[i].count_ones()
+        self.adj[i].iter().map(|w| w.count_ones()).sum()
     }
     /// Reference cycle detection: iterative removal of sink nodes (a digraph
     /// is acyclic iff repeatedly deleting nodes without successors empties it).
@@ -86,7 +89,7 @@ impl Graph {
                 if !alive[i] {
                     continue;
                 }
-                let has_succ = (0..n).any(|j| alive[j] && self.adj[i] >> j & 1 == 1 && edge_ok(i, j));
+                let has_succ = (0..n).any(|j| alive[j] && self.has(i, j) && edge_ok(i, j));
                 if !has_succ {
                     alive[i] = false;
                     removed = true;
@@ -117,10 +120,10 @@ pub fn realise_spelled(g: &Graph, real: Real, order: &[usize], refs_other_case: 
         Real::Fb => {
             for &i in order {
                 s.push_str(&format!("FUNCTION_BLOCK F{}\n", i));
-                if g.adj[i] != 0 {
+                if g.out_degree(i) != 0 {
                     s.push_str("VAR\n");
                     for j in 0..g.n {
-                        if g.adj[i] >> j & 1 == 1 {
+                        if g.has(i, j) {
                             s.push_str(&format!("  v{}_{} : {}{};\n", i, j, rf, j));
                         }
                     }
@@ -136,12 +139,12 @@ pub fn realise_spelled(g: &Graph, real: Real, order: &[usize], refs_other_case: 
                 if d == 0 {
                     s.push_str(&format!("  T{} : (A{}, B{});\n", i, i, i));
                 } else if d == 1 && real == Real::AliasMix {
-                    let j = g.adj[i].trailing_zeros();
+                    let j = (0..g.n).find(|j| g.has(i, *j)).unwrap_or(0);
                     s.push_str(&format!("  T{} : {}{};\n", i, rt, j));
                 } else {
                     s.push_str(&format!("  T{} : STRUCT\n", i));
                     for j in 0..g.n {
-                        if g.adj[i] >> j & 1 == 1 {
+                        if g.has(i, j) {
                             s.push_str(&format!("    e{}_{} : {}{};\n", i, j, rt, j));
                         }
                     }
@@ -159,7 +162,7 @@ fn class(g: &Graph, real: Real) -> String {
     if !g.cyclic() {
         return "acyclic".into();
     }
-    let selfloop = (0..g.n).any(|i| g.adj[i] >> i & 1 == 1);
+    let selfloop = (0..g.n).any(|i| g.has(i, i));
     match real {
         Real::Fb | Real::Struct => {
             if selfloop {
@@ -308,6 +311,32 @@ fn families() -> Vec<(String, Graph)> {
         two.push((n - 1, h));
         out.push((format!("two-components-second-cyclic-{}", n), Graph::from_edges(n, &two)));
     }
+    // large graphs around the sizes at which fixed-width tables and counters end
+    for n in [16usize, 17, 31, 32, 33, 63, 64, 65, 127, 128, 129, 255, 256, 257, 300] {
+        let chain: Vec<(usize, usize)> = (0..n - 1).map(|i| (i, i + 1)).collect();
+        out.push((format!("large/chain-{}", n), Graph::from_edges(n, &chain)));
+        let rchain: Vec<(usize, usize)> = (1..n).map(|i| (i, i - 1)).collect();
+        out.push((format!("large/rchain-{}", n), Graph::from_edges(n, &rchain)));
+        let mut ring = chain.clone();
+        ring.push((n - 1, 0));
+        out.push((format!("large/ring-{}", n), Graph::from_edges(n, &ring)));
+        // the only cycle is among the last two declarations
+        let mut late = chain.clone();
+        late.push((n - 1, n - 2));
+        out.push((format!("large/chain-with-last-two-cyclic-{}", n), Graph::from_edges(n, &late)));
+        // node 0 refers to all others (acyclic), and the same with one reference back from the last
+        let wide: Vec<(usize, usize)> = (1..n).map(|j| (0, j)).collect();
+        out.push((format!("large/wide-{}", n), Graph::from_edges(n, &wide)));
+        let mut wb = wide.clone();
+        wb.push((n - 1, 0));
+        out.push((format!("large/wide-backedge-{}", n), Graph::from_edges(n, &wb)));
+        // all others refer to the last one (acyclic), and the same with the last referring to the first
+        let fan: Vec<(usize, usize)> = (0..n - 1).map(|i| (i, n - 1)).collect();
+        out.push((format!("large/fan-in-{}", n), Graph::from_edges(n, &fan)));
+        let mut fb = fan.clone();
+        fb.push((n - 1, 0));
+        out.push((format!("large/fan-in-backedge-{}", n), Graph::from_edges(n, &fb)));
+    }
     out
 }
 
@@ -351,7 +380,7 @@ pub fn run(ctx: &mut Ctx) {
         }
     }
     ctx.bounds.insert("exhaustive_nodes_max".into(), json!(max_n));
-    ctx.bounds.insert("family_nodes_max".into(), json!(12));
+    ctx.bounds.insert("family_nodes_max".into(), json!(300));
     let mut n5_edges = 0;
     {
         // n = 5 with at most 7 edges (thorough: 9): enumerate masks by popcount
